@@ -631,7 +631,12 @@ def _get_ipython_app():
         else:
             shell = None
         if shell is not None:
-            return _DummyIPythonEmbeddedApp(shell)
+            # One fake application per shell, so that the AutoImporter
+            # attached to it is found again by later enable/disable calls.
+            app = getattr(shell, "_pyflyby_dummy_app", None)
+            if app is None:
+                app = shell._pyflyby_dummy_app = _DummyIPythonEmbeddedApp(shell)
+            return app
         # No active IPython app/shell.
         raise NoActiveIPythonAppError("No active IPython application")
     # The following has been tested on IPython 0.10.
